@@ -48,7 +48,9 @@ def make_cases(ctx, ri, tg):
     import lang
     for e in known:
         rn = ri.mappings[e]
-        sp = ri.spec[rn]
+        sp = ri.spec.get(rn)
+        if sp is None:
+            continue
         for _ in range(2 if quick else 8):
             w = lang.sample_word(sp, rng, rep=2) or []
             if len(w) < 2:
